@@ -482,6 +482,11 @@ func (b *Built) bindOpts(v reflect.Value, opts []*Opt, where string) {
 			switch o.Type {
 			case TFunc0:
 				f.Set(reflect.ValueOf(func() { *log = append(*log, "") }))
+			case TFunc0E:
+				f.Set(reflect.ValueOf(func() error {
+					*log = append(*log, "")
+					return fmt.Errorf("callback always refuses")
+				}))
 			case TFuncS:
 				f.Set(reflect.ValueOf(func(s string) { *log = append(*log, s) }))
 			case TFuncIE:
